@@ -209,7 +209,7 @@ Definition ERR_FEE_DENOM : Z := 50.
 Definition ERR_FEE_INSUFFICIENT : Z := 51.
 Definition ERR_FEE_TOO_MUCH : Z := 52.
 Definition ERR_FEE_FUNDS : Z := 53.
-Definition ERR_FEE_MAX_STORAGE : Z := 54.
+Definition ERR_FEE_MAX_STORAGE : Z := ERR_REG_MAX.
 Definition PANIC_NEGFEE : Z := 55.
 
 Section RegAnte.
